@@ -39,6 +39,39 @@ def stepAllAux (crBug : Bool) : List Char → Nat → St → List Nat → List (
 def stepAll (crBug : Bool) (text : List Char) (offs : List Nat) : List (Nat × Nat) :=
   stepAllAux crBug text 0 St.init offs
 
+/-! Byte layer.  The real `step` receives BYTE offsets (pest spans), slices the remaining
+    input at `input[..bytes_to_read]` and iterates over the scalar values of that slice.  Text
+    stays a `List Char`; a byte offset cuts it after as many characters as fit. -/
+
+/-- UTF-8 length of a character sequence -/
+def byteLen : List Char → Nat
+  | [] => 0
+  | c :: r => c.utf8Size + byteLen r
+
+/-- `input[..n].chars()` for a byte count `n` (characters that end at or before byte `n`) -/
+def takeBytes : Nat → List Char → List Char
+  | _, [] => []
+  | n, c :: r => if c.utf8Size ≤ n then c :: takeBytes (n - c.utf8Size) r else []
+
+/-- `&input[n..]` -/
+def dropBytes : Nat → List Char → List Char
+  | _, [] => []
+  | n, c :: r => if c.utf8Size ≤ n then dropBytes (n - c.utf8Size) r else c :: r
+
+/-- `PositionCalculator::step` along a sequence of byte offsets, as the code runs it -/
+def stepAllAuxB (crBug : Bool) : List Char → Nat → St → List Nat → List (Nat × Nat)
+  | _, _, _, [] => []
+  | inp, pos, s, o :: os =>
+    let n := o - pos
+    let s' := stepChars crBug s (takeBytes n inp)
+    (s'.line, s'.col) :: stepAllAuxB crBug (dropBytes n inp) o s' os
+
+def stepAllB (crBug : Bool) (text : List Char) (boffs : List Nat) : List (Nat × Nat) :=
+  stepAllAuxB crBug text 0 St.init boffs
+
+/-- byte offset of the character with index `k` -/
+def byteOff (text : List Char) (k : Nat) : Nat := byteLen (text.take k)
+
 /-- pest 2.x `Position::line_col` on the prefix before the error offset -/
 def pestAux (crBug : Bool) : List Char → Nat → Nat → Nat × Nat
   | [], l, c => (l, c)
